@@ -704,6 +704,9 @@ int _vnadata_load_npd(vnadata_internal_t *vdip, FILE *fp, const char *filename)
 	case VPT_S:
 	    switch (vfdp->vfd_format) {
 	    case VNADATA_FORMAT_IL:
+		fields = ports * (ports - 1);	/* off-diagonal elements */
+		break;
+
 	    case VNADATA_FORMAT_RL:
 	    case VNADATA_FORMAT_VSWR:
 		fields = ports;
